@@ -4,6 +4,7 @@ package hdf5
 
 import (
 	"encoding/binary"
+	"math"
 	"os"
 
 	"github.com/scigolib/hdf5/internal/core"
@@ -148,5 +149,64 @@ func VerifH_C12_api_vlen_collection_boundary() {
 		}
 	}
 	vrt.Covered("vlen-boundary-compared")
+	_ = f.Close()
+}
+
+// ragged sequences of every supported base type: the stored datatype is variable-length *of the written base type*
+// (class, size, signedness) and the stored element bytes are the little-endian encodings of the written values
+func VerifH_C12_api_vlen_base_types() {
+	kind := vrt.Choice(6)
+	var dtype Datatype
+	var data interface{}
+	var want [][]byte
+	wantClass, wantSize, wantSigned := core.DatatypeFixed, uint32(4), false
+	a, b := vrt.U64(), vrt.U64()
+	le := func(v uint64, n int) []byte {
+		out := make([]byte, n)
+		for i := 0; i < n; i++ {
+			out[i] = byte(v >> (8 * i))
+		}
+		return out
+	}
+	switch kind {
+	case 0:
+		dtype, data, wantSigned = VLenInt32, [][]int32{{int32(a), int32(b)}, {}}, true
+		want = [][]byte{append(le(uint64(uint32(a)), 4), le(uint64(uint32(b)), 4)...), {}}
+	case 1:
+		dtype, data = VLenUint32, [][]uint32{{uint32(a), uint32(b)}, {}}
+		want = [][]byte{append(le(uint64(uint32(a)), 4), le(uint64(uint32(b)), 4)...), {}}
+	case 2:
+		dtype, data, wantSigned, wantSize = VLenInt64, [][]int64{{int64(a)}, {int64(b)}}, true, 8
+		want = [][]byte{le(a, 8), le(b, 8)}
+	case 3:
+		dtype, data, wantSize = VLenUint64, [][]uint64{{a}, {b}}, 8
+		want = [][]byte{le(a, 8), le(b, 8)}
+	case 4:
+		dtype, data, wantClass = VLenFloat32, [][]float32{{math.Float32frombits(uint32(a))}, {math.Float32frombits(uint32(b))}}, core.DatatypeFloat
+		want = [][]byte{le(uint64(uint32(a)), 4), le(uint64(uint32(b)), 4)}
+	default:
+		dtype, data, wantClass, wantSize = VLenFloat64, [][]float64{{math.Float64frombits(a)}, {math.Float64frombits(b)}}, core.DatatypeFloat, 8
+		want = [][]byte{le(a, 8), le(b, 8)}
+	}
+	f, d := verifWriteReopen("c12t.h5", 2, dtype, []uint64{2}, data)
+	dt := verifDatatypeOf(d)
+	vrt.Assert(dt.Class == core.DatatypeVarLen, "recognised-as-variable-length")
+	vrt.Assert(!dt.IsVariableString(), "sequence-not-reported-as-string")
+	base, err := core.ParseDatatypeMessage(dt.Properties)
+	vrt.AssertNoErr(err, "vlen-base-type-parses")
+	if err == nil {
+		vrt.Assert(base.Class == wantClass && base.Size == wantSize, "vlen-base-type-preserved")
+		if wantClass == core.DatatypeFixed {
+			vrt.Assert(base.IsSignedInteger() == wantSigned, "vlen-base-signedness-preserved")
+		}
+	}
+	elems, err := verifVLenElements(d, 2)
+	vrt.AssertNoErr(err, "vlen-elements-resolve")
+	if err == nil {
+		for i := range want {
+			vrt.Assert(string(elems[i]) == string(want[i]), "vlen-element-bytes-exact")
+		}
+	}
+	vrt.Covered("vlen-compared")
 	_ = f.Close()
 }
